@@ -253,10 +253,11 @@ def run(ctx):
     vals = sorted(const_val(v6.arg(b, 1)) for b, _ in hs)
     ok = vals == [64, 255]
     det = 'set_hop_limit constants %s' % vals
+    na = []
     if ok:
         b255 = [b for b, _ in hs if const_val(v6.arg(b, 1)) == 255][0]
         b64 = [b for b, _ in hs if const_val(v6.arg(b, 1)) == 64][0]
-        na = v6.gate_edges(lambda d, v, vals_: isinstance(d, tuple) and d[0] == 'field' and is_call(peel(d[1]), r'get_icmpv6_type$') and v == 136)
+        na = value_edges(v6, lambda k: is_call(peel(k), r'get_icmpv6_type$'), 136)
         ok = bool(na) and not v6.must_pass(na, [b255])
         # converse: the NA edge leads straight to 255
         ok = ok and all(b255 in v6.reachable(s) and b255 in v6.dominators() and True for (_, s) in na)
@@ -278,7 +279,10 @@ def run(ctx):
     # the type tested is that of the ICMPv6 object being sent
     for bi in range(v6.n):
         se = v6.switch_edges(bi)
-        if se and isinstance(se[0], tuple) and se[0][0] == 'field' and is_call(peel(se[0][1]), r'get_icmpv6_type$'):
-            o = obj_of(peel(v6.objview(v6.operand(v6.blocks[bi]['term']['discr'], (bi, len(v6.blocks[bi]['stmts']))), bi))[1][2][0]) if True else None
+        if not se or not any(b_ == bi for (b_, _) in na):
+            continue
+        sites = [cb for cb, _ in v6.calls(r'get_icmpv6_type$') if any(x == v6.call_val(cb) for x in walk(se[0]))]
+        if True:
+            o = obj_of(v6.objview(v6.arg(sites[0], 0), sites[0])) if len(sites) == 1 else None
             cp = [b for b, tt in v6.calls(r"::MutableIpv6Packet::<'a>::set_payload$") if obj_of(v6.objview(v6.arg(b, 1), b)) == o]
             rep.check(r4, o is not None and len(cp) == 1, 'ipv6:hop-limit-object', 'type tested on the ICMPv6 object that is sent: %s' % (o is not None and len(cp) == 1), v6.loc(bi))
